@@ -214,7 +214,7 @@ func (s *Sim) Step(r *Replica, moreToApply, busySnap bool, crash CrashPoint, cut
 	// the known single-voter window (apply and send before the WAL write) is excluded by
 	// moving the crash behind the WAL write when the finding is recorded as known
 	single := len(before.Voters) <= 1 || raft.VerifLogPeek(r.Node).Quorum <= 1
-	if crash != NoCrash && s.crashExcluded(r) {
+	if crash != NoCrash && s.crashExcluded(r, &rd) {
 		s.St.ExcludedKnown++
 		crash = NoCrash
 	}
@@ -387,10 +387,73 @@ const (
 	// record is the one that truncated the entries above it: after a restart the
 	// truncated suffix above the snapshot is back
 	KnownWalResurrect = "C03-wal-replay-resurrects-truncated-suffix"
+	// raft.removeNode calls maybeCommit whatever the node's role: a restarted replica
+	// that re-applies a RemoveNode which (in the configuration rebuilt so far) leaves it
+	// as the only voter commits its own uncommitted entries of the current term
+	KnownConfReplayCommit = "C02-nonleader-commits-on-conf-replay"
 )
 
 // KnownIDs lists them; a property package turns on those that known.Active reports.
-var KnownIDs = []string{KnownSingleVoterWindow, KnownPartialBootstrap, KnownLearnerSnapshot, KnownRocksStaleTail, KnownWalResurrect}
+var KnownIDs = []string{KnownSingleVoterWindow, KnownPartialBootstrap, KnownLearnerSnapshot, KnownRocksStaleTail, KnownWalResurrect, KnownConfReplayCommit}
+
+// confReplayVulnerable: if r restarted from its durable record (plus extra, the entries
+// of the Ready in progress) it would re-apply a RemoveNode after which it is the only
+// voter of the configuration rebuilt so far, while its log holds an entry of its
+// current term behind that conf change.
+func (s *Sim) confReplayVulnerable(r *Replica, extra []pb.Entry, extraTerm uint64) bool {
+	sn, hs, ents, err := r.Disk.Replay()
+	if err != nil {
+		return false
+	}
+	term := hs.Term
+	if extraTerm > term {
+		term = extraTerm
+	}
+	if len(extra) > 0 {
+		sh := Shadow{}
+		sh.Reset(sn, ents)
+		if sh.Append(extra) == nil {
+			ents = sh.Ents
+		}
+	}
+	// what is certainly known committed after a crash: the commit index of the synced part
+	var commit uint64
+	for k := r.Disk.Synced - 1; k >= 0; k-- {
+		if r.Disk.Recs[k].Kind == RecState {
+			commit = r.Disk.Recs[k].HS.Commit
+			break
+		}
+	}
+	cs := sn.Metadata.ConfState
+	if !containsU64(cs.Nodes, r.ID) {
+		// newRaft gives the node a progress entry for itself (Match = last index) only if
+		// the snapshot's ConfState lists it; a progress created by a replayed AddNode has Match 0
+		return false
+	}
+	c := NewConfFold(cs.Nodes...)
+	for _, l := range cs.Learners {
+		c.Learners[l] = true
+	}
+	alone := uint64(0) // index of a RemoveNode that leaves r alone
+	for i := range ents {
+		e := &ents[i]
+		if alone != 0 && e.Term == term && e.Index > commit {
+			return true
+		}
+		if e.Type != pb.EntryConfChange {
+			continue
+		}
+		var cc pb.ConfChange
+		if cc.Unmarshal(e.Data) != nil {
+			continue
+		}
+		c.Apply(cc)
+		if cc.Type == pb.ConfChangeRemoveNode && len(c.Voters) == 1 && c.Voters[r.ID] {
+			alone = e.Index
+		}
+	}
+	return false
+}
 
 // wouldResurrect: with a snapshot marker for sn in the durable record, a restart of r
 // would read back entries above sn that are not r's log (its log then ends at trueLast;
@@ -443,9 +506,19 @@ func (s *Sim) learnerVulnerable(r *Replica) bool {
 }
 
 // crashExcluded: a crash of r now would produce the trigger of a recorded finding.
-func (s *Sim) crashExcluded(r *Replica) bool {
+func (s *Sim) crashExcluded(r *Replica, rd *raft.Ready) bool {
 	if s.Known[KnownLearnerSnapshot] && s.learnerVulnerable(r) {
 		return true
+	}
+	if s.Known[KnownConfReplayCommit] {
+		var extra []pb.Entry
+		var et uint64
+		if rd != nil {
+			extra, et = rd.Entries, rd.HardState.Term
+		}
+		if s.confReplayVulnerable(r, nil, 0) || (rd != nil && s.confReplayVulnerable(r, extra, et)) {
+			return true
+		}
 	}
 	return false
 }
@@ -640,7 +713,7 @@ func (s *Sim) crashNow(r *Replica, point CrashPoint, cut func(n int) int) {
 		if keep < n {
 			all := r.Disk.Recs
 			r.Disk.Recs = all[:r.Disk.Synced+keep]
-			if (s.Known[KnownPartialBootstrap] && s.bootstrapVulnerable(r)) || s.crashExcluded(r) {
+			if (s.Known[KnownPartialBootstrap] && s.bootstrapVulnerable(r)) || s.crashExcluded(r, nil) {
 				// would leave a bootstrap member without its committed bootstrap entries
 				r.Disk.Recs = all
 				s.St.ExcludedKnown++
@@ -668,7 +741,7 @@ func (s *Sim) Crash(r *Replica, cut func(n int) int) {
 	if !r.Up {
 		return
 	}
-	if (s.Known[KnownPartialBootstrap] && s.bootstrapVulnerable(r)) || s.crashExcluded(r) {
+	if (s.Known[KnownPartialBootstrap] && s.bootstrapVulnerable(r)) || s.crashExcluded(r, nil) {
 		s.St.ExcludedKnown++
 		return
 	}
